@@ -26,13 +26,14 @@ MODELLED = ("Modelled (Engine/Monitors.v, of the code with fixes/C41-a.diff): Ru
             "quantified in the theorems, produced by the real engine in the tie and read from its own message/state hooks): when the "
             "pause block, the wake-up, _start_suspender and _resume_from_suspender happen. Not modelled: the Event's seq_num/"
             "timestamps/descriptor (C05/C16), ophyd's immediate callback on subscribe(run=True), subscribe kwargs other than the channel, devices "
-            "whose subscribe/clear_sub raise, requests from other OS threads.")
+            "whose subscribe/clear_sub raise (a subscribe() that registers the callback and then raises is run on the real engine and judged by "
+            "the oracle only: family `no_model`), requests from other OS threads.")
 RULE = ("exhaustive (x 2: monitor without kwargs / with event_type='rb', updates on the requested and on another channel): a monitored signal with an update before, inside and after each of 16 control scenarios (pause ended by "
         "resume/abort/stop/halt; suspension with updates in pre_plan, awaited future and post_plan; overlapping second suspension; "
         "pause inside a suspension; pause then suspension; two suspensions in a row; a stray '_resume_from_suspender' message) x 6 endings (nothing, unmonitor, close_run, "
         "second run monitoring the same signal, monitor placed in the pre_plan, run opened in the pre_plan) ; random: 1-2 calls x "
         "3-10 steps over 2 run keys (+ default key), 2 signals and 3 channels (monitor kwargs and update channels drawn independently) with nested pauses/suspensions, illegal monitor/unmonitor/open/close, "
-        "plans that raise. non-trivial = some update produced an Event and some update made while paused/suspended produced none")
+        "plans that raise; oracle-only: a device whose subscribe() registers and then raises x update before/not x 12 endings x 2 channels + a second call. non-trivial = some update produced an Event and some update made while paused/suspended produced none")
 
 logging.getLogger("bluesky").setLevel(logging.CRITICAL + 1)
 
